@@ -40,7 +40,7 @@ def run_case(cs):
     rng = cs.rng
     d = cs.dir()
     area = os.path.join(d, "area")
-    root = os.path.join(area, "root")
+    root = os.path.join(area, world.root_name(rng, "root"))
     cwd = os.path.join(area, "cwd")
     dest = os.path.join(area, "dest")
     os.makedirs(cwd)
@@ -150,6 +150,11 @@ def run_case(cs):
             cmd, argv = "create", [root, "-dr"] + world.fmt_args(world.gen_formats(rng))
         elif kind == "flatten":
             cmd, argv = "flatten", [root, dest] + (["-v"] if rng.random() < 0.3 else [])
+            if rng.random() < 0.4:
+                # relative destination: it is relative to the working directory, wherever the source is
+                run_cwd = cwd
+                argv[1] = rng.choice(["dest-rel", "./dest-rel", "../dest"])
+                oc += "-reldest"
         if cmd in ("verify", "diff", "create", "flatten") and kind != "usage" and "-v" not in argv and rng.random() < 0.3:
             argv = argv + ["-v"]
             oc += "-v"
@@ -175,10 +180,14 @@ def run_case(cs):
                 cs.violation("readonly-command-changes-tree", {"kind": "snapshot-diff", "cmd": oc, "added": bool(df["added"]), "removed": bool(df["removed"]), "changed": sorted({f for v in df["changed"].values() for f in v})}, {**ctx, "diff": _short(df)})
         elif kind == "flatten":
             cs.count("flatten_commands")
-            bad_ev = [m for m in muts if not all(os.path.abspath(p).startswith(dest) or os.path.abspath(p) == dest for p in audit.target_paths(m))]
+            real_dest = os.path.normpath(os.path.join(run_cwd or os.getcwd(), argv[1]))
+            bad_ev = [m for m in muts if not all(os.path.normpath(os.path.join(run_cwd or os.getcwd(), p)).startswith(real_dest) for p in audit.target_paths(m))]
             if bad_ev:
                 cs.violation("flatten-writes-outside-destination", {"kind": "audit-mutation", "cmd": "flatten", "event": bad_ev[0][0]}, {**ctx, "events": [list(map(str, m[:3])) for m in bad_ev[:4]]})
-            outside = {"added": [p for p in df["added"] if not ("/" + p).startswith("/dest")], "removed": [p for p in df["removed"] if not ("/" + p).startswith("/dest")], "changed": {p: v for p, v in df["changed"].items() if not ("/" + p).startswith("/dest") and not (p == "." and v == ["mtime"] and "dest" in df["added"])}}
+            drel = os.path.relpath(real_dest, area)
+            ind = lambda p: p == drel or p.startswith(drel + "/")
+            parent_of_new_dest = os.path.dirname(drel) or "."
+            outside = {"added": [p for p in df["added"] if not ind(p)], "removed": [p for p in df["removed"] if not ind(p)], "changed": {p: v for p, v in df["changed"].items() if not ind(p) and not (p == parent_of_new_dest and v == ["mtime"] and drel in df["added"])}}
             if not snap.empty(outside):
                 cs.violation("flatten-changes-source", {"kind": "snapshot-diff", "cmd": "flatten", "changed": sorted({f for v in outside["changed"].values() for f in v})}, {**ctx, "diff": _short(outside)})
         else:
